@@ -112,8 +112,65 @@ def hexArgs (ws : List String) : Option (List Bytes) := do
   let bs ← ws.mapM parseHex
   if bs.all bytesOk then some bs else none
 
+/-! `conc <reps> <group> // <group> // …`, group = `<sub> / <sub> / …`, sub = `chk id pw` | `chpw id old new` |
+`login id pw`: the harness runs the groups in concurrent goroutines (each repeats its sub-ops `reps` times, in
+order); groups that write address different accounts, so every interleaving must answer like the groups run one
+after the other — which is what the model does.  Answer: `conc n=<sub-ops run> ok=<answers without error>
+h=<fnv64 of all error names, group-major> used=… sess=… tbl=… rest=…`. -/
+
+def splitTok (sep : String) : List String → List (List String)
+  | [] => [[]]
+  | w :: ws =>
+    match splitTok sep ws with
+    | g :: gs => if w = sep then [] :: g :: gs else (w :: g) :: gs
+    | [] => [[w]]
+
+def parseSub (ws : List String) : Option (Nat → Op) :=
+  match ws with
+  | ["chk", id, pw] => match hexArgs [id, pw] with
+      | some [i, p] => some fun _ => .checkPasswd i p
+      | _ => none
+  | ["chpw", id, o, n] => match hexArgs [id, o, n] with
+      | some [i, a, b] => some fun t => .changePasswd i a b t
+      | _ => none
+  | ["login", id, pw] => match hexArgs [id, pw] with
+      | some [i, p] => some fun t => .login i p t
+      | _ => none
+  | _ => none
+
+structure Acc where
+  st : St
+  tick : Nat
+  n : Nat
+  ok : Nat
+  h : UInt64
+
+def runSubs (rsv : List Bytes) (a : Acc) (subs : List (Nat → Op)) : Acc :=
+  subs.foldl (fun a mk =>
+    let (s', r) := step rsv a.st (mk a.tick)
+    { st := s', tick := a.tick + 1, n := a.n + 1, ok := if r.err = .none then a.ok + 1 else a.ok,
+      h := (showErr r.err).toList.foldl (fun h ch => fnvStep h ch.toNat) (fnvStep a.h 32) }) a
+
+def runGroup (rsv : List Bytes) (reps : Nat) (a : Acc) (subs : List (Nat → Op)) : Acc :=
+  (List.range reps).foldl (fun a _ => runSubs rsv a subs) a
+
+def doConc (c : Option Ctx) (repsS : String) (rest : List String) : Option Ctx × String :=
+  match c, repsS.toNat? with
+  | some c, some reps =>
+      if reps = 0 ∨ reps > 1000 ∨ repsS.length > 4 then (some c, "bad-op") else
+      match (splitTok "//" rest).mapM (fun g => (splitTok "/" g).mapM parseSub) with
+      | none => (some c, "bad-op")
+      | some groups =>
+          if groups.isEmpty ∨ groups.length > 64 ∨ groups.any (fun g => g.isEmpty ∨ g.length > 64) then (some c, "bad-op") else
+          let a0 : Acc := { st := c.st, tick := c.tick, n := 0, ok := 0, h := 14695981039346656037 }
+          let a := groups.foldl (runGroup c.reserved reps) a0
+          let c' : Ctx := { c with st := a.st, tick := a.tick }
+          (some c', s!"conc n={a.n} ok={a.ok} h={hex16 a.h} used={used a.st} sess={a.st.sess.length} tbl={hex16 (tblDigest c.pool a.st)} rest={flags c.st a.st}")
+  | c, _ => (c, "bad-op")
+
 def stepC03 (c : Option Ctx) (ws : List String) : Option Ctx × String :=
   match ws with
+  | "conc" :: reps :: rest => doConc c reps rest
   | ["reset", rsv, pool, slots] =>
       match parseList rsv, parseList pool, parseSlots (slots.splitOn ";") with
       | some rsv, some pool, some recs =>
